@@ -43,7 +43,8 @@ theorem Derives.plus_parts {N : Type} {g : Grammar N} {a : Sym N} {ts out : List
     · exact hp p hp'
 
 /-- lexer-shaped tokens: a token whose kind carries no text has the empty value -/
-def TsOK (ts : List Tok) : Prop := ∀ t ∈ ts, t.kind.valued = false → t.value = []
+def TsOK (ts : List Tok) : Prop :=
+  ∀ t ∈ ts, (t.kind.valued = false → t.value = []) ∧ (t.kind = .name → t.value ≠ [])
 
 theorem TsOK.left {a b : List Tok} (h : TsOK (a ++ b)) : TsOK a := fun t ht => h t (by simp [ht])
 theorem TsOK.right {a b : List Tok} (h : TsOK (a ++ b)) : TsOK b := fun t ht => h t (by simp [ht])
@@ -60,7 +61,7 @@ theorem kind_inv {N : Type} {g : Grammar N} {k : Kind} {ts out : List Tok} (h : 
 theorem punct_inv {N : Type} {g : Grammar N} {k : Kind} {ts out : List Tok} (h : Derives g (kind k) ts out) (hok : TsOK ts)
     (hv : k.valued = false) : ts = [tP k] ∧ out = [tP k] := by
   obtain ⟨t, e1, e2, hk⟩ := kind_inv h
-  have hval : t.value = [] := hok t (by simp [e1]) (by rw [hk]; exact hv)
+  have hval : t.value = [] := (hok t (by simp [e1])).1 (by rw [hk]; exact hv)
   have : t = tP k := by cases t; simp_all [tP]
   subst this
   exact ⟨e1, e2⟩
